@@ -398,8 +398,18 @@ func balance(w *sched.BW, s *vsched.Sched) []string {
 // c15SlowCallback: the allocation's lifetime (1 s) runs out while a lifecycle
 // callback of kind `slow` sleeps for 2 s; afterwards everything must be gone and
 // the created/deleted events must pair up.
-func c15SlowCallback(slow string) *sched.Scenario {
-	return &sched.Scenario{Name: "c15-expiry-during-slow-" + slow + "-callback", Bound: bound(), FreeBound: 3, Opt: opt,
+func c15SlowCallback(slow string) *sched.Scenario { return c15SlowCallbackReq(slow, "") }
+
+// c15SlowCallbackReq: req = "chanbind" sends a ChannelBind (which installs a permission first) while
+// the permission callback is the slow one; "" = the request that matches the callback kind; a
+// CreatePermission names two peers, so that the allocation ends between the two installations.
+func c15SlowCallbackReq(slow, req string) *sched.Scenario {
+	name := "c15-expiry-during-slow-" + slow + "-callback"
+	if req != "" {
+		name += "-of-a-" + req
+	}
+
+	return &sched.Scenario{Name: name, Bound: bound(), FreeBound: 3, Opt: opt,
 		Body: func(s *vsched.Sched) (func() []string, func()) {
 			w := sched.NewBW(sched.BCfg{CB: func(kind string) {
 				if kind == slow+"+" {
@@ -414,8 +424,8 @@ func c15SlowCallback(slow string) *sched.Scenario {
 				if slow != "alloc" {
 					vsched.IdleSleep(500 * time.Millisecond)
 					vsched.Mark()
-					if slow == "perm" {
-						c.Fire(wire.CreatePermission, peer("A"))
+					if slow == "perm" && req == "" {
+						c.Fire(wire.CreatePermission, func(b *wire.B) { peer("A")(b); peer("B")(b) })
 					} else {
 						c.Fire(wire.ChannelBind, chanAttrs(0x4000, "A"))
 					}
@@ -545,6 +555,67 @@ func c06ReallocVsTimer() *sched.Scenario {
 		}}
 }
 
+// c15SlowDial: a Connect whose outgoing dial takes 2 s (a peer that answers late) on a stream listener.
+// who = "other": another client's allocation (lifetime 1 s) expires while the dial is in progress: at
+// 1.5 s it is gone (count 1), whatever the dialing request holds on to.
+// who = "own": the dialing client's own allocation (lifetime 1 s) expires during its dial: nothing of
+// it may be left once the dial has returned - in particular no peer connection.
+func c15SlowDial(who string) *sched.Scenario {
+	return &sched.Scenario{Name: "c15-allocation-expires-during-slow-connect-dial-" + who, Bound: bound() - 1, FreeBound: 2, Opt: opt,
+		Body: func(*vsched.Sched) (func() []string, func()) {
+			w := sched.NewBW(sched.BCfg{Stream: true, SlowDial: 2 * time.Second})
+			c1, c2 := w.NewClient("c1"), w.NewClient("c2")
+			pl, err := w.Net.ListenTCPAddr("tcp4", &net.TCPAddr{IP: vtx.PeerSpec["B"].IP, Port: 5000})
+			if err != nil {
+				panic(err)
+			}
+			var nt notes
+			life := func(c string) uint32 {
+				if (who == "own") == (c == "c1") {
+					return 1
+				}
+
+				return 600
+			}
+			vsched.Go("driver", func() {
+				c1.Do(wire.Allocate, func(b *wire.B) { tcp(b); b.U32(wire.AttrLifetime, life("c1")) })
+				c2.Do(wire.Allocate, func(b *wire.B) { udp(b); b.U32(wire.AttrLifetime, life("c2")) })
+				vsched.Mark()
+				c1.Fire(wire.Connect, peer("B")) // the server dials for 2 s
+				vsched.IdleSleep(1500 * time.Millisecond)
+				nt.set("count@1.5s", fmt.Sprint(w.Srv.AllocationCount()))
+				vsched.IdleSleep(3 * time.Second) // the dial has returned long ago
+				nt.set("count@4.5s", fmt.Sprint(w.Srv.AllocationCount()))
+				open := 0
+				for {
+					pc := pl.Take()
+					if pc == nil {
+						break
+					}
+					if !pc.Peer().IsClosed() {
+						open++
+					}
+				}
+				nt.set("peer-conns-open@4.5s", fmt.Sprint(open))
+			})
+
+			return func() []string {
+				var out []string
+				if nt.get("count@4.5s") == "" {
+					return []string{"c15:driver-never-completed"}
+				}
+				if nt.get("count@1.5s") != "1" || nt.get("count@4.5s") != "1" {
+					out = append(out, fmt.Sprintf("c15:expired-allocation-still-counted-during-slow-dial:count@1.5s=%s,count@4.5s=%s", nt.get("count@1.5s"), nt.get("count@4.5s")))
+				}
+				if who == "own" && nt.get("peer-conns-open@4.5s") != "0" {
+					out = append(out, "c15:peer-connection-of-an-expired-allocation-left-open:"+nt.get("peer-conns-open@4.5s"))
+				}
+
+				return out
+			}, func() { _ = w.Srv.Close() }
+		}}
+}
+
 func run(t *testing.T, prop string, scs ...*sched.Scenario) {
 	r := rep.New(prop)
 	defer r.Write()
@@ -561,5 +632,5 @@ func TestC06Sched(t *testing.T) { run(t, "C06", c06Realloc(), c06ReallocVsTimer(
 func TestC04Sched(t *testing.T) { run(t, "C04", c04TwoConns()) }
 func TestC16Sched(t *testing.T) { run(t, "C16", c16TwoBinds(), c16BindVsTimeout()) }
 func TestC15Sched(t *testing.T) {
-	run(t, "C15", c15SlowCallback("alloc"), c15SlowCallback("perm"), c15SlowCallback("chan"), c15EqualDeadlines())
+	run(t, "C15", c15SlowCallback("alloc"), c15SlowCallback("perm"), c15SlowCallback("chan"), c15SlowCallbackReq("perm", "chanbind"), c15EqualDeadlines(), c15SlowDial("other"), c15SlowDial("own"))
 }
